@@ -144,6 +144,12 @@ def run(an: Analysis, rep):
     rep.run(rebuild_rule, an, rep, "R01.8", ["from_code", "to_code"])
     rep.run(c09.duplicates_key_rule, an, SharedRules(rep, "R01.K", "table entries the encoder cannot tell apart by key keep their position (shared with C09's R09.2): otherwise re-encoding merges them"))
     rep.run(c09.seed_rules, an, SharedRules(rep, "R01.S", "what the decoder pre-marks in a table (docstring slot, parameter slots) is what the encoder pre-assigns (shared with C09's R09.2): otherwise the two sides number the remaining entries differently"))
+    from . import c03, c04
+    from .common import truthiness_rule
+    rep.run(c04.r045, an, SharedRules(rep, "R01.D", "the docstring is co_consts[0] exactly when that is a str - also the empty one (shared with C04's R04.5): otherwise the encoder lays the constants out differently"))
+    rep.run(c09.unreferenced_rules, an, SharedRules(rep, "R01.U", "entries no instruction references are listed, each with the override the rank function gives it (shared with C09's R09.3/R09.5): otherwise re-encoding moves them"))
+    rep.run(c03.r038, an, SharedRules(rep, "R01.F", "the encoder keys a line (and its extra table entries) at the first code unit of the instruction (shared with C03's R03.8)"))
+    rep.run(truthiness_rule, an, rep, "R01.T", ["from_code", "to_code"], [("Instruction", "line_number"), ("AdditionalLine", "line")])
     rep.run(c10.format_rules, an, SharedRules(rep, "R01.L", "line-table format constants (shared with C10's R10.*): byte equality of co_lnotab / co_linetable needs them"))
     rep.run(c02.jump_rules, an, SharedRules(rep, "R01.J", "jump scale / offsets / cell-free shift on both sides (shared with C02's R02.3-R02.5): byte equality of co_code needs them"))
     for (cq, fname), (ok, cfg, why, where) in sorted(produced_any.items()):
